@@ -151,6 +151,10 @@ class OptimizerGeneric:
         _fun(x): Internal function to evaluate the objective function.
     """
 
+    # scipy.optimize.minimize methods without support for bounds
+    _UNBOUNDED_METHODS = ('cg', 'bfgs', 'newton-cg', 'dogleg', 'trust-ncg',
+                          'trust-exact', 'trust-krylov')
+
     def __init__(self, problem: OptimizationProblem):
         self.problem = problem
         self._x = []
@@ -176,9 +180,17 @@ class OptimizerGeneric:
         Returns:
             result (OptimizeResult): The optimization result.
         """
+        bounds = tuple([var.bounds for var in self.problem.variables])
+
+        # scipy only warns (RuntimeWarning, silenced below) when a method
+        # cannot handle bounds and then ignores them
+        has_bounds = any(b is not None for bound in bounds for b in bound)
+        if has_bounds and str(method).lower() in self._UNBOUNDED_METHODS:
+            raise ValueError(f'Method "{method}" cannot handle variable '
+                             'bounds.')
+
         x0 = [var.value for var in self.problem.variables]
         self._x.append(x0)
-        bounds = tuple([var.bounds for var in self.problem.variables])
 
         options = {'maxiter': maxiter, 'disp': disp}
 
